@@ -474,36 +474,63 @@ def threshold (total power : Nat) : Option Bool :=
   else if power / 100 = 0 then none
   else some (decide (total / (power / 100) ≤ 150))
 
+/-- The sender's account id (`Sender.AccountID()`; supplied with the account declaration). -/
+def St.idOf (s : St) (a : Bytes) : Bytes :=
+  match s.accts.get a with
+  | some x => x
+  | none => []
+
+def oldCands : Option Vote → List Bytes
+  | some v => v.cands
+  | none => []
+
+def oldAmount : Option Vote → Nat
+  | some v => v.amount
+  | none => 0
+
+/-- cmd.sub(old); cmd.add(new) on the voting-power rank (from hard fork 2 on). -/
+def revoteVpr (s : St) (a : Bytes) (oldA newA : Nat) : Vpr :=
+  if s.fv < 2 then s.vpr else ((s.vpr.sub (s.idOf a) a oldA).add (s.idOf a) a newA)
+
+/-- loadVoteResult, SubVote(old), AddVote(new), buildVoteList (`none`: nil `*big.Int` in SubVote). -/
+def revoteTally (t : AMap (Issue × Bytes) Nat) (i : Issue) (old : Option Vote) (new : Vote) :
+    Option (AMap (Issue × Bytes) Nat) :=
+  match subVotes (tallyLoad t) i (oldAmount old) (oldCands old) with
+  | none => none
+  | some t1 => some (tallyStore (addVotes t1 i new.amount new.cands))
+
+/-- SystemVoteTotal of a parameter issue: `total - old + new`, written with `Bytes()`. -/
+def revoteVtotal (vt : AMap Issue Nat) (i : Issue) (oldA newA : Nat) : AMap Issue Nat :=
+  if i.ex then
+    let cur : Int := match vt.get i with | some x => (x : Int) | none => 0
+    vt.set i (cur - oldA + newA).natAbs
+  else vt
+
+/-- The parameter part of `VoteResult.Sync`: the leading entry against the threshold.
+`none`: panic (empty list, or division by zero); `some none`: no change; `some (some v)`: updateParam. -/
+def syncParam (total : Nat) (t : AMap (Issue × Bytes) Nat) (i : Issue) : Option (Option Nat) :=
+  match rankOf t i with
+  | [] => none   -- resultList.Votes[0]: index out of range
+  | top :: _ =>
+    match threshold total top.2 with
+    | none => none
+    | some false => some none
+    | some true => some (parseDec top.1)   -- `none` here: "abnormal winner" error; cannot arise, candidates were validated
+
 /-- Old/new contribution of one voter to the issue's tally and the VPR, then `VoteResult.Sync`:
 vpr.apply, rebuild the list, (parameter issues) threshold → updateParam, total. -/
 def revote (s : St) (i : Issue) (a : Bytes) (old : Option Vote) (new : Vote) : Option St :=
-  let id := match s.accts.get a with | some x => x | none => []
-  let oldC := match old with | some v => v.cands | none => []
-  let oldA := match old with | some v => v.amount | none => 0
-  -- cmd.sub(old); cmd.add(new)
-  let vpr1 := if s.fv < 2 then s.vpr else (s.vpr.sub id a oldA).add id a new.amount
-  match subVotes (tallyLoad s.tally) i oldA oldC with
+  match revoteTally s.tally i old new with
   | none => none
-  | some t1 =>
-    let t2 := tallyStore (addVotes t1 i new.amount new.cands)
-    let vt := if i.ex then
-        let cur : Int := match s.vtotal.get i with | some x => (x : Int) | none => 0
-        s.vtotal.set i (cur - oldA + new.amount).natAbs
-      else s.vtotal
-    -- Sync
-    let (vpr2, disk2) := vprApply vpr1 s.vprDisk
-    let s1 := { s with tally := t2, vtotal := vt, vpr := vpr2, vprDisk := disk2 }
+  | some t2 =>
+    let va := vprApply (revoteVpr s a (oldAmount old) new.amount) s.vprDisk
+    let s1 := { s with tally := t2, vtotal := revoteVtotal s.vtotal i (oldAmount old) new.amount,
+                       vpr := va.1, vprDisk := va.2 }
     if i.ex then
-      match rankOf t2 i with
-      | [] => none   -- resultList.Votes[0]: index out of range
-      | top :: _ =>
-        match threshold s.total top.2 with
-        | none => none
-        | some false => some s1
-        | some true =>
-          match parseDec top.1 with
-          | none => some s1   -- "abnormal winner": error (cannot arise: candidates were validated)
-          | some v => some { s1 with paramsDisk := s1.paramsDisk.set i v, nextParams := s1.nextParams.set i (v : Int) }
+      match syncParam s.total t2 i with
+      | none => none
+      | some none => some s1
+      | some (some v) => some { s1 with paramsDisk := s1.paramsDisk.set i v, nextParams := s1.nextParams.set i (v : Int) }
     else some s1
 
 /-- getVote: a record exists iff its serialisation is non-empty (serializeVote of no candidates and a zero
